@@ -274,6 +274,18 @@ def gen_cases(rng, tier):
     return cases
 
 
+def gen_fault_cases(rng, tier):
+    """for the C18 aggregator (which samples a capped number of histories): the spelled-out corner cases, the
+    NetworkGrid histories (unknown-node targets) and a share of the random grid histories - all contain rejecting calls
+    and every grid history ends with the fault sweep"""
+    cs = gen_cases(rng, tier)
+    net = [c for c in cs if c["cls"] == "NetworkGrid"]
+    grid = [c for c in cs if c["cls"] != "NetworkGrid"]
+    fixed, rnd = grid[:len(_fixed_cases())], grid[len(_fixed_cases()):]
+    k = 90 if tier == "quick" else 1200
+    return fixed + net[:(70 if tier == "quick" else 900)] + rnd[:k]
+
+
 def enumerate_cases(tier, broken=False):
     """targeted exhaustive sweep: every history of `depth` calls from a small alphabet of mutators and reads
     on 2x1 (and 2x2 when thorough) grids with 2 agents, SingleGrid and MultiGrid (on 2x1 all four classes when
@@ -500,7 +512,8 @@ def _gen_net(rng):
         elif r < 0.5:
             a = rng.choice(placed)
             ops.append(["move", a, node])
-            pos[a] = node if node in nodes else None
+            if node in nodes:
+                pos[a] = node
         elif r < 0.6:
             a = rng.choice(placed)
             ops.append(["remove", a])
